@@ -732,7 +732,40 @@ func ruleJSONWalkerOut(c *Ctx) {
 			c.Oblige("T.jsondispatch.out", false, sw.Pos(), wk.Name(), "case "+code, "no case for this type code", nil)
 		}
 	}
-	c.Floor("T.jsondispatch.out", 5)
+	// nil is carried by the type code alone: the writer adds no value field for
+	// it, so "null" has to be output where the type field (2) is read - in the
+	// clause of the value field (3) it would never be reached
+	if f := p.ssaFunc("plenccodec.Descriptor.readJSONObjectKV"); f != nil {
+		found, atType := false, false
+		for _, b := range f.Blocks {
+			for _, in := range b.Instrs {
+				call, ok := in.(*ssa.Call)
+				if !ok {
+					continue
+				}
+				cc := call.Common()
+				if !cc.IsInvoke() || cc.Method.Name() != "Raw" || len(cc.Args) != 1 || !isConstString(cc.Args[0], "null") {
+					continue
+				}
+				found = true
+				conds, truths := controllingConds(b)
+				for i, cd := range conds {
+					bo, ok := cd.(*ssa.BinOp)
+					if !ok || bo.Op != token.EQL || !truths[i] {
+						continue
+					}
+					for _, o := range []ssa.Value{bo.X, bo.Y} {
+						if k, ok := o.(*ssa.Const); ok && k.Value != nil && k.Value.ExactString() == "2" && isIntLike(k.Type()) && typeName(k.Type()) != "jsonType" {
+							atType = true
+						}
+					}
+				}
+			}
+		}
+		c.Oblige("T.jsondispatch.out", found && atType, f.Pos(), wk.Name(), "null is output where the type field is read",
+			"a nil value is written as key and type code only; the walker must render it when it reads the type field (index 2), the value clause (index 3) is never reached for it", nil)
+	}
+	c.Floor("T.jsondispatch.out", 6)
 }
 
 // ---------------------------------------------------------------------------
